@@ -63,14 +63,7 @@ pub fn c01_step(st: &mut C01State, pre: &StoreSnap, post: &StoreSnap, step: &Ste
     }
     for (k, b1) in &post.banks {
         let Some(b0) = pre.banks.get(k) else { continue };
-        if *st.written_off.get(k).unwrap_or(&false) {
-            continue;
-        }
-        // sanctioned: token-less repay on a flagged bank => excluded from then on
-        if b1.flags & marginfi_type_crate::constants::TOKENLESS_REPAYMENTS_ALLOWED != 0 {
-            st.written_off.insert(*k, true);
-            continue;
-        }
+        // (a bank flagged for token-less repayments stays monitored: only the risk admin's explicit write-off is sanctioned, below)
         let d_vault = q_int(b1.vault) - q_int(b0.vault);
         let d_net = b1.net_claims() - b0.net_claims();
         if d_vault.is_zero() && d_net.is_zero() {
@@ -88,6 +81,16 @@ pub fn c01_step(st: &mut C01State, pre: &StoreSnap, post: &StoreSnap, step: &Ste
         }
         // sanctioned: wipe-out of a bank whose bad debt exceeds deposits
         let mut sanctioned = q_zero();
+        // sanctioned: the risk admin's explicit token-less write-off (deleverage bracket) on a bank flagged for it:
+        // the debt it clears without tokens is added to the bank's allowance exactly
+        if let Op::Sunset { step: 3, .. } = step.op {
+            let flagged = (b0.flags | b1.flags) & marginfi_type_crate::constants::TOKENLESS_REPAYMENTS_ALLOWED != 0;
+            let deficit = &d_net - &d_vault;
+            if flagged && deficit.is_positive() {
+                sanctioned = deficit;
+                st.written_off.insert(*k, true);
+            }
+        }
         if let Op::Bankrupt { .. } = step.op {
             if b1.asv.is_zero() && !b0.asv.is_zero() {
                 // uncovered remainder = -(d_vault - d_net) if positive
@@ -194,7 +197,8 @@ pub fn c02_step(st: &mut C02State, pre: &StoreSnap, post: &StoreSnap, step: &Ste
     }
     // every instruction that closes a position abandons that slot's sub-dust residue (the other
     // side of a withdraw_all / repay_all, or both sides of close_balance / account close)
-    let closing_op = matches!(step.op, Op::CloseBalance { .. } | Op::CloseAccount { .. } | Op::Withdraw { all: true, .. } | Op::Repay { all: true, .. } | Op::Flash { repay: true, .. } | Op::Sunset { step: 2, .. } | Op::Sunset { step: 3, .. });
+    let closing_op = matches!(step.op, Op::CloseBalance { .. } | Op::CloseAccount { .. } | Op::Withdraw { all: true, .. } | Op::Repay { all: true, .. } | Op::Flash { repay: true, .. } | Op::Sunset { step: 2, .. } | Op::Sunset { step: 3, .. })
+        || matches!(step.op, Op::Receivership { ramt, .. } if ramt % 3 == 0);
     for (k, b1) in &post.banks {
         let Some(b0) = pre.banks.get(k) else { continue };
         let (sa0, sl0) = sums_of(pre, k);
@@ -230,7 +234,7 @@ pub fn c02_step(st: &mut C02State, pre: &StoreSnap, post: &StoreSnap, step: &Ste
                 st.closures += 1;
                 st.max_abandoned_value = st.max_abandoned_value.max(q_f64(&va)).max(q_f64(&vl));
                 let (lim_a, lim_l, what) = match step.op {
-                    Op::CloseBalance { .. } | Op::Withdraw { .. } | Op::Repay { .. } | Op::Flash { .. } | Op::Sunset { .. } => (threshold_0001(), threshold_0001(), "0.0001 units"),
+                    Op::CloseBalance { .. } | Op::Withdraw { .. } | Op::Repay { .. } | Op::Flash { .. } | Op::Sunset { .. } | Op::Receivership { .. } => (threshold_0001(), threshold_0001(), "0.0001 units"),
                     // account close: each slot's residue must be an empty position (< 1 share)
                     _ => (q_int(16) * q_max(q_one(), b1.asv.clone()), q_int(16) * q_max(q_one(), b1.lsv.clone()), "1 share per slot"),
                 };
